@@ -42,6 +42,7 @@ pub enum V {
     Urgency,
     Description,
     CFormat,
+    NoSupport,
     Path,
 }
 
@@ -178,6 +179,7 @@ pub fn value(rng: &mut Rng, v: V) -> String {
             3 => "http://www.debian.org/doc/packaging-manuals/copyright-format/1.0".to_string(),
             _ => url(rng),
         },
+        V::NoSupport => rng.pick(&["Packages", "Packages", "yes", "no"]).to_string(),
         V::Path => rng.pick(&["/build/foo-1.0", "/tmp/x", "relative/dir"]).to_string(),
     }
 }
@@ -290,6 +292,7 @@ pub const APT_RELEASE: &[F] = &[
     F("NotAutomatic", true, V::BoolTF),
     F("ButAutomaticUpgrades", true, V::BoolTF),
     F("Acquire-By-Hash", true, V::BoolTF),
+    F("No-Support-for-Architecture-all", false, V::NoSupport),
 ];
 
 pub const APT_SOURCE: &[F] = &[
@@ -397,7 +400,7 @@ pub const REMOVAL: &[F] = &[
 
 pub const COPYRIGHT_HEADER: &[F] = &[
     F("Format", true, V::CFormat),
-    F("Files-Excluded", false, V::Lines),
+    F("Files-Excluded", false, V::Globs),
     F("Source", false, V::Url),
     F("Upstream-Contact", false, V::Identity),
     F("Upstream-Name", false, V::Word),
@@ -482,6 +485,27 @@ pub fn instance(rng: &mut Rng, kind: &str) -> String {
                 s.push('\n');
                 s.push_str(&para(rng, CONTROL_BINARY, shuffle, comments));
             }
+            // debian/control carries substitution variables in its relationship fields
+            if rng.chance(1, 3) {
+                let lines: Vec<String> = s.split_inclusive('\n').map(|x| x.to_string()).collect();
+                let mut out = String::new();
+                for (i, l) in lines.iter().enumerate() {
+                    let single = !lines.get(i + 1).map(|n| n.starts_with(' ') || n.starts_with('\t')).unwrap_or(false);
+                    let rel = ["Depends: ", "Pre-Depends: ", "Recommends: ", "Suggests: ", "Build-Depends: ", "Breaks: "].iter().any(|p| l.starts_with(p));
+                    if rel && single && l.ends_with('\n') && !l.trim_end().ends_with(',') && rng.chance(1, 2) {
+                        let var = rng.s(&["${misc:Depends}", "${shlibs:Depends}", "${python3:Depends}"]);
+                        if rng.chance(1, 2) {
+                            out.push_str(&format!("{}, {var}\n", l.trim_end_matches('\n')));
+                        } else {
+                            let (name, val) = l.split_once(": ").unwrap();
+                            out.push_str(&format!("{name}: {var}, {val}"));
+                        }
+                    } else {
+                        out.push_str(l);
+                    }
+                }
+                s = out;
+            }
             s
         }
         "apt-release" => para(rng, APT_RELEASE, shuffle, false),
@@ -491,8 +515,13 @@ pub fn instance(rng: &mut Rng, kind: &str) -> String {
         "buildinfo" => para(rng, BUILDINFO, shuffle, false),
         "removal" => para(rng, REMOVAL, shuffle, false),
         "copyright" => {
-            // the header must come first and start with Format
-            let mut s = para(rng, COPYRIGHT_HEADER, false, false);
+            // the header comes first; its fields may stand in any order and comment lines may precede it
+            let mut s = String::new();
+            if rng.chance(1, 6) {
+                s.push_str(rng.s(&["# machine-readable copyright file\n", "#\n# see DEP-5\n"]));
+            }
+            let shuffle_header = rng.chance(1, 4);
+            s.push_str(&para(rng, COPYRIGHT_HEADER, shuffle_header, false));
             for _ in 0..rng.below(3) {
                 s.push('\n');
                 if rng.chance(2, 3) {
